@@ -151,6 +151,14 @@ func (p *Project) UseWeatherLayout(layout int, heights bool, altitude, windHeigh
 	}
 }
 
+// UseYearlyCO2: the weather carries a CO2 concentration that rises from year to year (scenario runs): in the year
+// files as the third value of the third header line of each file, in the day-of-year layout as a CO2 column.
+// Call after UseWeatherLayout(0, true, ...) or UseWeatherLayout(2, ...).
+func (p *Project) UseYearlyCO2() { p.alt().co2PerYear = true }
+
+// YearlyCO2 is the concentration UseYearlyCO2 writes for year y.
+func (p *Project) YearlyCO2(y int) float64 { return 350 + 45*float64(y-p.WeatherStart.Y) }
+
 // DeriveMeanTemperature makes the stored mean temperature the float64 value (tmax+tmin)/2, which
 // is what the day-of-year layout derives (weather_input.go:521).
 func (p *Project) DeriveMeanTemperature() {
@@ -163,6 +171,7 @@ type altFiles struct {
 	soilTxt, rotCSV, measCSV, weather bool
 	rotHeader, measHeader, layout     int
 	heights                           bool
+	co2PerYear                        bool // a CO2 value per year: third header line of every year file / CO2 column of the day-of-year layout
 	altitude, windHeight              float64
 	numericOnly                       bool
 }
@@ -312,6 +321,14 @@ func (p *Project) writeWeatherSameDir(dir string, a *altFiles) error {
 		return os.WriteFile(filepath.Join(dir, code+".csv"), []byte(b.String()), 0o644)
 	case 2:
 		var b strings.Builder
+		if a.co2PerYear {
+			b.WriteString("@YYYYJJJ RAD TMAX TMIN RH WIND PREC CO2\n")
+			b.WriteString("units\n")
+			for _, d := range p.Weather {
+				fmt.Fprintf(&b, "%04d%03d %g %g %g %g %g %g %g\n", d.Date.Y, d.Date.DOY(), d.Rad, d.Tmax, d.Tmin, d.RH, d.Wind, d.Precip, p.YearlyCO2(d.Date.Y))
+			}
+			return os.WriteFile(filepath.Join(dir, code+".csv"), []byte(b.String()), 0o644)
+		}
 		b.WriteString("@YYYYJJJ RAD TMAX TMIN RH WIND PREC\n")
 		b.WriteString("units\n")
 		for _, d := range p.Weather {
@@ -327,7 +344,9 @@ func (p *Project) writeWeatherSameDir(dir string, a *altFiles) error {
 			var b strings.Builder
 			b.WriteString("tavg;tmin;tmax;ET0;relhumid;vapp14;wind;sundu;globrad;precip;jday\n")
 			b.WriteString("C_deg;C_deg;C_deg;mm;%;mm_Hg;m/s;hours;MJ m-2;mm;\n")
-			if a.heights {
+			if a.heights && a.co2PerYear {
+				fmt.Fprintf(&b, "%g;%g;%g\n", a.altitude, a.windHeight, p.YearlyCO2(y))
+			} else if a.heights {
 				b.WriteString(hl)
 			}
 			for _, d := range days {
